@@ -77,9 +77,9 @@ def register_forward_ref(
             if force_clear:
                 ref.__forward_evaluated__ = False
                 ref.__forward_value__ = None
-    elif annotation.__forward_evaluated__:
-        evaluated = True
-        annotation = annotation.__forward_value__
+    # (without a namespace nothing is evaluated here, and an evaluation found in the object is not taken either: typing
+    # shares these objects between declarations, another declaration's first parse keeps its result there for a moment.
+    # the declaration that gets this type registers the reference and resolves it in its own namespace)
     if evaluate_only:
         return annotation
     if not evaluated:
@@ -1348,12 +1348,9 @@ class Rule(metaclass=LogicalType):
             arg_transformers = []
             for arg in cls.__args__:
                 if isinstance(arg, ForwardRef):
-                    if arg.__forward_evaluated__:
-                        arg = arg.__forward_value__
-                    else:
-                        # we will resolve it later
-                        arg_transformers.append(None)
-                        continue
+                    # we will resolve it later (an evaluation found in the object may be another declaration's)
+                    arg_transformers.append(None)
+                    continue
                 if arg is None:
                     arg_transformers.append(None)
                     if cls.__origin__ and issubclass(
